@@ -45,8 +45,10 @@ fn check_backend<G: quizx::graph::GraphLike>(
 fn check_graph(spec: &DiagSpec, obs: &mut Obs) -> Result<(), String> {
     let d = spec.to_diag();
     // tensor evaluation reads the stored phases: boolean variables on spiders are annotations
-    // that only take effect when values are substituted, so a diagram with them denotes what it
-    // denotes with every variable false
+    // that only take effect when values are substituted.  The generated parities have no
+    // constant term, so "annotations are ignored" and "every variable false" are the same
+    // reading here (with a constant term they differ, and quizx ignores the annotation - an
+    // experiment showed it; which reading is meant is not specified, so that is not checked)
     obs.class_if(d.has_vars(), "with-variables");
     let truth = match truth_of(&d.instantiate(&|_| false)) {
         Ok(t) => t,
